@@ -388,7 +388,12 @@ func c11Run(e *core.Env) {
 				}
 			}
 		}
-		for _, j := range []int32{0, 1, -2} {
+		js := []int32{0, 1, -2}
+		if m < 300 || m%13 == 0 {
+			// cubes of large and small magnitude (adjusted exponents +-33 ... +-3000)
+			js = append(js, 11, -12, 100, -101, 1000)
+		}
+		for _, j := range js {
 			for _, neg := range []bool{false, true} {
 				x := FinBig(cube, 3*j, neg)
 				e.State()
@@ -444,7 +449,7 @@ func init() {
 	core.Register(&core.Prop{
 		ID:    "C11",
 		Title: "Sqrt is correctly rounded; Cbrt is within one unit and exact on perfect cubes",
-		Rule:  "Sqrt on every coefficient below 10^(2p+2) for small p (both exponent parities), on the sparse SHAPE families for p = 1..16 under all context modes, and on the pre-images of every p-digit midpoint, against big.Int.Sqrt + sticky rounded half-even once (value and Inexact iff not exactly representable); Cbrt on every perfect cube m^3 (both signs, scaled) and DENSE operands against an exact (r+-ulp)^3 bracket; non-trivial = inexact root / non-trivial cube case",
+		Rule:  "Sqrt on every coefficient below 10^(2p+2) for small p (both exponent parities), on the sparse SHAPE families for p = 1..16 under all context modes, and on the pre-images of every p-digit midpoint, against big.Int.Sqrt + sticky rounded half-even once (value and Inexact iff not exactly representable); Cbrt on every perfect cube m^3 (both signs, scaled by 10^(3j), j in {0,1,-2} and for a share {11,-12,100,-101,1000}) and DENSE operands against an exact (r+-ulp)^3 bracket; non-trivial = inexact root / non-trivial cube case",
 		Bounds: func(tier string) string {
 			if tier == "thorough" {
 				return "Sqrt: all coefficients < 10^(2p+2) for p <= 3 x 2 parities; SHAPE(14) x 6 exponents x p = 1..16 x 8 modes (+ tight range for p <= 5); midpoint pre-images for p <= 4 (j in {0,1,2,3,5,8,12,20}, +-1 in the last digit, 3 exponents); every perfect square m^2, m < 10^4, x 5 exponents x 8 modes x 4 precisions; Cbrt: m^3 for m < 10^4 x 3 scalings x signs x 6 precisions, DENSE(4) x 5 exponents x 4 precisions, SHAPE"
